@@ -48,6 +48,24 @@ def cases(tier, rng):
                         ops.append("recv")
                 out.append("p%d.%d%s sock REP / %s" % (k, npeers, "y" if avail else "n", " / ".join(ops)))
                 k += 1
+    # a malformed request (no delimiter and a single frame / delimiter last / only a delimiter) from one connection is an
+    # error for recv and changes nothing else: a pending request keeps its requester, no request means no reply
+    junk = [[b"solo"], [b""], [b"x", b""], [b"k" * 300]]
+    for jm in junk:
+        jt = W.tok(W.msg(jm))
+        good = W.tok(W.msg([b"", b"b0"]))
+        for variant in range(4):
+            ops = ["attach a DEALER", "attach b REQ"]
+            if variant == 0:      # junk only: the reply must be handed back
+                ops += ["feed a " + jt, "recv", "send 4f4b", "wire a", "wire b"]
+            elif variant == 1:    # genuine request pending, then junk, then the reply
+                ops += ["feed b " + good, "recv", "feed a " + jt, "recv", "send 4f4b", "wire a", "wire b"]
+            elif variant == 2:    # junk first, then the genuine request
+                ops += ["feed a " + jt, "recv", "feed b " + good, "recv", "send 4f4b", "wire a", "wire b"]
+            else:                 # junk queued behind the genuine request on another connection, both ready at once
+                ops += ["feed b " + good, "feed a " + jt, "recv", "recv", "send 4f4b", "wire a", "wire b", "send 4f4b", "wire a", "wire b"]
+            out.append("c%d sock REP / %s" % (k, " / ".join(ops)))
+            k += 1
     # two connections announcing the same identity: the newer replaces the older; requests and replies stay paired
     for idl in (1, 5, 255):
         ident = W.tok(b"I" * idl)
